@@ -58,28 +58,48 @@ mod verif_oracle_prio3 {
     #[test]
     fn oracle_helper_shares_independent() {
         use crate::codec::Encode;
+        // sharding randomness of every shape, the degenerate ones included: the helper shares must be its chunks VERBATIM
+        let fills: Vec<(&str, Box<dyn Fn(usize) -> u8>)> = vec![
+            ("affine", Box::new(|i| (i as u8).wrapping_mul(29).wrapping_add(7))),
+            ("all-zero", Box::new(|_| 0u8)),
+            ("constant 0xab", Box::new(|_| 0xabu8)),
+            ("period 32", Box::new(|i| (i % 32) as u8)),
+            ("period 64", Box::new(|i| ((i % 64) as u8).wrapping_mul(3))),
+        ];
         for n in [2u8, 3, 4, 5, 6, 8, 9] {
-            // with joint randomness
-            let vdaf: Prio3<SumVec<Field128, ParallelSum<Field128, Mul>>, XofTurboShake128, 32> = Prio3::new(n, 1, 0xFFFF_0001, SumVec::new(2, 3, 2).unwrap()).unwrap();
-            let random: Vec<u8> = (0..vdaf.random_size()).map(|i| (i as u8).wrapping_mul(29).wrapping_add(7)).collect();
-            let nonce = [5u8; 16];
-            let (_, s1) = vdaf.shard_with_random(b"ctx", &vec![0u128, 1, 2], &nonce, &random).unwrap();
-            let (_, s2) = vdaf.shard_with_random(b"ctx", &vec![2u128, 0, 1], &nonce, &random).unwrap();
-            for j in 1..n as usize {
-                if s1[j].get_encoded().unwrap() != s2[j].get_encoded().unwrap() {
-                    println!("COUNTEREXAMPLE Prio3::shard_with_random (SumVec with joint randomness, {} aggregators): the input share of helper {} differs between two measurements sharded with the same randomness - it depends on the measurement", n, j);
-                    return;
+            for (fname, fill) in &fills {
+                // with joint randomness: helper j consumes chunk 2(j-1) (share seed) and chunk 2(j-1)+1 (joint randomness blind)
+                let vdaf: Prio3<SumVec<Field128, ParallelSum<Field128, Mul>>, XofTurboShake128, 32> = Prio3::new(n, 1, 0xFFFF_0001, SumVec::new(2, 3, 2).unwrap()).unwrap();
+                let random: Vec<u8> = (0..vdaf.random_size()).map(|i| fill(i)).collect();
+                let nonce = [5u8; 16];
+                let (_, s1) = vdaf.shard_with_random(b"ctx", &vec![0u128, 1, 2], &nonce, &random).unwrap();
+                let (_, s2) = vdaf.shard_with_random(b"ctx", &vec![2u128, 0, 1], &nonce, &random).unwrap();
+                for j in 1..n as usize {
+                    let (e1, e2) = (s1[j].get_encoded().unwrap(), s2[j].get_encoded().unwrap());
+                    if e1 != e2 {
+                        println!("COUNTEREXAMPLE Prio3::shard_with_random (SumVec with joint randomness, {} aggregators, {} randomness): the input share of helper {} differs between two measurements sharded with the same randomness and nonce", n, fname, j);
+                        return;
+                    }
+                    if e1[..] != random[(j - 1) * 64..j * 64] {
+                        println!("COUNTEREXAMPLE Prio3::shard_with_random (SumVec with joint randomness, {} aggregators, {} randomness): the input share of helper {} is not seed || blind copied verbatim from chunks {} and {} of the sharding randomness", n, fname, j, 2 * (j - 1), 2 * (j - 1) + 1);
+                        return;
+                    }
                 }
-            }
-            // without joint randomness
-            let vdaf: Prio3<Sum<Field64>, XofTurboShake128, 32> = Prio3::new(n, 2, 0xFFFF_0002, Sum::new(1000).unwrap()).unwrap();
-            let random: Vec<u8> = (0..vdaf.random_size()).map(|i| (i as u8).wrapping_mul(31).wrapping_add(3)).collect();
-            let (_, s1) = vdaf.shard_with_random(b"ctx", &1u64, &nonce, &random).unwrap();
-            let (_, s2) = vdaf.shard_with_random(b"ctx", &999u64, &nonce, &random).unwrap();
-            for j in 1..n as usize {
-                if s1[j].get_encoded().unwrap() != s2[j].get_encoded().unwrap() {
-                    println!("COUNTEREXAMPLE Prio3::shard_with_random (Sum, {} aggregators): the input share of helper {} depends on the measurement", n, j);
-                    return;
+                // without joint randomness: helper j holds chunk j-1
+                let vdaf: Prio3<Sum<Field64>, XofTurboShake128, 32> = Prio3::new(n, 2, 0xFFFF_0002, Sum::new(1000).unwrap()).unwrap();
+                let random: Vec<u8> = (0..vdaf.random_size()).map(|i| fill(i)).collect();
+                let (_, s1) = vdaf.shard_with_random(b"ctx", &1u64, &nonce, &random).unwrap();
+                let (_, s2) = vdaf.shard_with_random(b"ctx", &999u64, &nonce, &random).unwrap();
+                for j in 1..n as usize {
+                    let (e1, e2) = (s1[j].get_encoded().unwrap(), s2[j].get_encoded().unwrap());
+                    if e1 != e2 {
+                        println!("COUNTEREXAMPLE Prio3::shard_with_random (Sum, {} aggregators, {} randomness): the input share of helper {} depends on the measurement", n, fname, j);
+                        return;
+                    }
+                    if e1[..] != random[(j - 1) * 32..j * 32] {
+                        println!("COUNTEREXAMPLE Prio3::shard_with_random (Sum, {} aggregators, {} randomness): the input share of helper {} is not chunk {} of the sharding randomness", n, fname, j, j - 1);
+                        return;
+                    }
                 }
             }
         }
